@@ -364,16 +364,18 @@ def gen_matrix_case(rng):
     return L
 
 
-def gen_block_case(rng):
-    """dense <- dense matrices of opposite (and equal) orientation, shapes around the 8x8 / 16x16 blocking"""
-    dims = [1, 2, 7, 8, 9, 15, 16, 17, 23, 24, 31, 32, 33, 35]
+def gen_block_case(rng, big=False):
+    """dense <- dense matrices of opposite (and equal) orientation, shapes around the 8x8 / 16x16 blocking.
+    The functional model costs O((r*c)^2): the quick tier keeps r*c <= ~400, the thorough tier goes up to 35 x 35."""
+    dims = [1, 2, 7, 8, 9, 15, 16, 17, 23, 24, 31, 32, 33, 35] if big else [1, 2, 7, 8, 9, 15, 16, 17, 18, 20]
     r, c = rng.choice(dims), rng.choice(dims)
+    while not big and r * c > 400: r, c = rng.choice(dims), rng.choice(dims)
     kinds = [rng.choice("RC") for _ in range(3)]
     if len(set(kinds)) == 1: kinds[1] = "C" if kinds[0] == "R" else "R"
     L = ["RESET"]
     for i, k in enumerate(kinds):
         L.append("NDM %d %s %d %d" % (i, k, r, c)); L.append("MFILL %d %d" % (i, rng.randint(0, 10)))
-    for _ in range(rng.randint(2, 4)):
+    for _ in range(rng.randint(2, 3)):
         t, s = rng.sample(range(3), 2)
         if rng.random() < 0.35: L.append("DKA %d %d" % (t, s))
         else:
@@ -555,8 +557,8 @@ def stream(ck, rng, ncases):
     nfixed = len(cases)
     for k in range(ncases):
         cases.append(gen_vector_case(rng) if k % 2 == 0 else gen_matrix_case(rng))
-    for k in range(max(6, ncases // 25)):
-        cases.append(gen_block_case(rng))
+    for k in range(8 if ncases <= 400 else 30):
+        cases.append(gen_block_case(rng, big=(ncases > 400 and k % 3 == 0)))
     bad = [c for c in cases if not valid(c)]
     if bad: raise RuntimeError("generator produced an ill-formed sparse case: %r" % bad[0])
     tmpd = os.path.join(BUILD, "tmp", "C01", "sparse")
